@@ -49,7 +49,14 @@ def _sig(params, rng, is_mw, bad_next, allow_kwonly, allow_posonly, extra_next=N
                     lst.remove(nm)
                     kw.append((nm, lst is opt))
     po = []
-    if allow_posonly and req and not is_mw and rng.random() < 0.7:
+    po_opt = []
+    if allow_posonly and not is_mw and opt and rng.random() < 0.35:
+        # "gap mode": every required positional parameter and some defaulted ones are positional-only
+        # (def f(a, b=D, c=D, /, d=D)); what is left of the required ones has to be keyword-only
+        k = rng.randint(1, len(opt))
+        po, po_opt, opt = list(req), opt[:k], opt[k:]
+        req = []
+    elif allow_posonly and req and not is_mw and rng.random() < 0.7:
         k = rng.randint(1, len(req))
         po, req = req[:k], req[k:]
     parts = []
@@ -63,7 +70,8 @@ def _sig(params, rng, is_mw, bad_next, allow_kwonly, allow_posonly, extra_next=N
         else:
             parts.append('next')
     parts += po
-    if po:
+    parts += ['%s=DEFAULTS[%r]' % (nm, nm) for nm in po_opt]
+    if po or po_opt:
         parts.append('/')
     parts += req
     parts += ['%s=DEFAULTS[%r]' % (nm, nm) for nm in opt]
@@ -75,7 +83,8 @@ def _sig(params, rng, is_mw, bad_next, allow_kwonly, allow_posonly, extra_next=N
     if kw:
         parts.append('*')
         parts += [('%s=DEFAULTS[%r]' % (nm, nm)) if d else nm for nm, d in kw]
-    kinds = dict([(nm, 'po') for nm in po] + [(nm, 'kw') for nm, _d in kw])
+    kinds = dict([(nm, 'po') for nm in po + po_opt] + [(nm, 'kw') for nm, _d in kw])
+    kinds['__po_order__'] = po + po_opt
     return ', '.join(parts), kinds
 
 
@@ -240,19 +249,37 @@ def build(rec, seed=0, kwonly=True, posonly=False, carriers=True, methods=None):
     b.outcome = 'ok'
     b.exc = None
     b.app = None
+    via_factory = render is not None and rng.random() < 0.35
+    b.via_factory = via_factory
+    factory = (lambda arg, _r=render: _r) if via_factory else None
     try:
-        route = Route(pattern, endpoint, render, middlewares=mws[n_app:], resources=b.rres, methods=methods)
+        route = Route(pattern, endpoint, 'render-arg' if via_factory else render, middlewares=mws[n_app:], resources=b.rres,
+                      methods=methods)
         b.route = route
         if rng.random() < 0.5:
-            app = Application([route], resources=b.res, middlewares=mws[:n_app])
+            app = Application([route], resources=b.res, middlewares=mws[:n_app], render_factory=factory)
         else:
-            app = Application([], resources=b.res, middlewares=mws[:n_app])
+            app = Application([], resources=b.res, middlewares=mws[:n_app], render_factory=factory)
             app.add(route)
         b.app = app
     except Exception as e:  # noqa
         b.outcome = type(e).__name__
         b.exc = e
         b.exc_is_nameerror = isinstance(e, NameError)
+        return b
+    # a decoy route in front of the real one: same number of segments, binds the names of the real route's
+    # route-level resources, admits only DELETE - so every GET/POST matches its path, is skipped for its method, and
+    # must leave nothing behind (its URL values must not shadow the real route's resources)
+    b.decoy = None
+    if url:
+        rnames = sorted(rec['rres'])[:len(url)]
+        dnames = rnames + ['dz%d' % i for i in range(len(url) - len(rnames))]
+        try:
+            decoy = Route('/' + '/'.join('<%s>' % nm for nm in dnames), lambda: Response('decoy'), methods=['DELETE'])
+            b.app.add(decoy, index=0)
+            b.decoy = dnames
+        except Exception as e:  # noqa  (not part of the configuration under test)
+            b.decoy = 'not-added: %r' % (e,)
     return b
 
 
